@@ -41,6 +41,8 @@ def configs(tier, seed):
                     params = {"n": 12}
                 out.append({"name": "rec-%s-%s-d%d-T%d" % (algo, part, d, T), "algo": algo, "part": part, "d": d, "T": T, "params": params,
                             "cost": T * d * arity(part, d)})
+    out.append({"name": "rec-StoSOO-B-d1-T9-k1-hmax2", "algo": "StoSOO", "part": "B", "d": 1, "T": 9, "params": {"k": 1, "h_max": 2}})
+    out.append({"name": "rec-StoSOO-K3-d1-T6-k1-hmax1", "algo": "StoSOO", "part": "K3", "d": 1, "T": 6, "params": {"k": 1, "h_max": 1}})
     out.append({"name": "rec-StoSOO-B-d1-T7-k3", "algo": "StoSOO", "part": "B", "d": 1, "T": 7, "params": {"k": 3}})
     out.append({"name": "rec-SequOOL-B-d1-T10-n10", "algo": "SequOOL", "part": "B", "d": 1, "T": 10 if q else 9, "params": {"n": 10}})
     for n, T in ((100, 6), (200, 18)) + (((400, 40),) if q else ()):
@@ -257,6 +259,8 @@ def run(ctx, cfg):
     if mode == "gpo":
         return run_gpo(ctx, cfg)
     ob = Recommend()
-    algo, dom, rs, lp = drive(ctx, cfg, [ob], last_point=False)
-    if cfg.get("twin"):
+    algo, dom, rs, lp = drive(ctx, cfg, [ob], last_point=False, stop_on_none=True)
+    if len(rs) >= 1:
+        ob.query(len(rs) + 1)  # once more at the end (the last pull may have grown the tree without returning a point)
+    if cfg.get("twin") and len(rs) > 1:
         ctx.check_ge("twin", rs[0], rs[1], "reachability witness: deliberately false")
